@@ -823,6 +823,9 @@ class Interp:
             return b if not callable(b) or isinstance(b, (ExcClass, External)) else Builtin(n, b)
         if n in EXC_NAMES:
             return ExcClass(n)
+        import builtins as _b
+        if hasattr(_b, n):
+            raise Unsupported("builtin %s is not modelled" % n)          # a real builtin: outside the subset, NOT a NameError of the code
         raise PyExc("NameError", "name '%s' is not defined" % n)
 
     def ex_Name(self, e, f):
